@@ -19,6 +19,12 @@ package checks
 //   (iii) versioned read at the single current head == current ordinary query;
 //   (iv)  k-th non-empty subscription result == ordinary query recorded right after the k-th
 //         (non-delete) operation.
+//   (v)   a commit is a state of documents of ITS collection only: a second collection (Twin) shares the
+//         field names name, s, i, n with Doc. Col(cid: c) / Col(cid: c, docID: d) with c a commit of
+//         a document of the other collection equals what the ordinary query Col(docID: d) returned on
+//         the writer right after c was written - nothing - or is rejected with an error; in both
+//         directions (Twin commit through Doc, Doc commit through Twin). Control: the Twin commit read
+//         through Twin equals the ordinary Twin query recorded right after it.
 // Every read runs under a per-operation watchdog; a read that never returns is a hang.
 
 import (
@@ -38,7 +44,7 @@ import (
 )
 
 type ttOp struct {
-	Kind string         `json:"k"`              // create | update | delete | deliver | read | other (a write to a second collection)
+	Kind string         `json:"k"`              // create | update | delete | deliver | read | other (a write to a second collection) | twin (a write to document Doc of collection Twin, which shares field names with Doc: created on first use)
 	Back int            `json:"back,omitempty"` // read: time-travel to the commit that many positions before the newest one the node lists
 	Node int            `json:"n"`              // acting node (receiver for deliver)
 	Doc  int            `json:"d"`              // document index (creation order)
@@ -73,6 +79,37 @@ var ttDomains = map[string][]any{
 	"n":  {-1, 1, 2, 3},
 	"p":  {1, 2, 3},
 	"nf": {0.5, -0.5, 1.25},
+}
+
+// Twin: a second collection that shares the field names name, s, i, n (same types) with Doc and
+// has one field of its own.
+const ttTwinSDL = "\ntype Twin {\n\tname: String\n\ts: String\n\ti: Int\n\tn: Int @crdt(type: pncounter)\n\tz: String\n}"
+const ttTwinFields = "_docID name s i n z"
+
+var ttTwinShared = []string{"s", "i", "n"}
+
+// ttTwinWrites: fields of one write to a Twin document; in 2 of 3 writes only fields that Doc has as well.
+func ttTwinWrites(rng *rand.Rand) map[string]any {
+	w := map[string]any{}
+	for k := 1 + rng.IntN(2); k > 0; k-- {
+		f := ttTwinShared[rng.IntN(len(ttTwinShared))]
+		w[f] = ttDomains[f][rng.IntN(len(ttDomains[f]))]
+	}
+	if rng.IntN(3) == 0 {
+		w["z"] = []any{"q", "r", nil}[rng.IntN(3)]
+	}
+	return w
+}
+
+// ttAddTwin inserts writes to 1-2 Twin documents at random places of a generated script (own PRNG
+// stream: the histories themselves stay what they were).
+func ttAddTwin(rng *rand.Rand, p *ttParams) {
+	k := 1 + rng.IntN(3)
+	for ; k > 0; k-- {
+		at := rng.IntN(len(p.Script) + 1)
+		op := ttOp{Kind: "twin", Node: rng.IntN(p.Nodes), Doc: rng.IntN(2), W: ttTwinWrites(rng)}
+		p.Script = append(p.Script[:at], append([]ttOp{op}, p.Script[at:]...)...)
+	}
 }
 
 // ---------------------------------------------------------------------------------------
@@ -370,12 +407,39 @@ func ttAnchors() []core.Case {
 		{Kind: "deliver", Node: 1, Src: 0, Doc: 0},
 		{Kind: "deliver", Node: 0, Src: 1, Doc: 0},
 	}})
+	// commits of another collection that shares field names: Twin documents written with shared fields
+	// only (create, update incl. counter and null write) and with a field Doc does not have, between
+	// the commits of a Doc document; every one is requested through Doc (bare, with the Twin docID,
+	// with the docID of a Doc document), every Doc commit is requested through Twin
+	add(ttParams{Config: "plain", Nodes: 1, Script: []ttOp{
+		{Kind: "create", Doc: 0, W: map[string]any{"name": "a", "n": 1, "s": "x"}},
+		{Kind: "twin", Doc: 0, W: map[string]any{"s": "tw", "n": 2}},
+		{Kind: "update", Doc: 0, W: map[string]any{"n": 2, "i": 1}},
+		{Kind: "twin", Doc: 0, W: map[string]any{"n": 3, "i": 2}},
+		{Kind: "twin", Doc: 1, W: map[string]any{"s": "b", "z": "q"}},
+		{Kind: "update", Doc: 0, W: map[string]any{"n": 3, "s": nil}},
+		{Kind: "twin", Doc: 0, W: map[string]any{"s": nil}},
+		{Kind: "update", Doc: 0, W: map[string]any{"n": 4, "p": 1}},
+	}})
+	add(ttParams{Config: "indexed", Nodes: 2, LazySub: true, Script: []ttOp{
+		{Kind: "create", Node: 0, Doc: 0, W: map[string]any{"name": "a", "n": 1, "s": "x"}},
+		{Kind: "deliver", Node: 1, Src: 0, Doc: 0},
+		{Kind: "twin", Node: 1, Doc: 0, W: map[string]any{"i": 1}},
+		{Kind: "update", Node: 0, Doc: 0, W: map[string]any{"n": 2, "s": "local"}},
+		{Kind: "twin", Node: 0, Doc: 0, W: map[string]any{"s": "x", "n": 1}},
+		{Kind: "update", Node: 1, Doc: 0, W: map[string]any{"n": 4, "i": 2}},
+		{Kind: "deliver", Node: 0, Src: 1, Doc: 0},
+		{Kind: "update", Node: 0, Doc: 0, W: map[string]any{"n": 1, "i": 1}},
+		{Kind: "twin", Node: 0, Doc: 0, W: map[string]any{"n": 2}},
+		{Kind: "deliver", Node: 1, Src: 0, Doc: 0},
+	}})
 	return cs
 }
 
 func ttCases(seed uint64, tier string) []core.Case {
 	cs := ttAnchors()
 	rng := rand.New(rand.NewPCG(seed, 303))
+	rngTwin := rand.New(rand.NewPCG(seed, 304))
 	n := tierN(tier, 150, 3000)
 	for i := 0; i < n; i++ {
 		var p ttParams
@@ -389,6 +453,9 @@ func ttCases(seed uint64, tier string) []core.Case {
 			p = ttGenBranch(rng, false)
 		default:
 			p = ttGenBranch(rng, true)
+		}
+		if rngTwin.IntN(3) == 0 {
+			ttAddTwin(rngTwin, &p)
 		}
 		cs = append(cs, core.MkCase(ttKind(p), rng.Uint64(), p))
 	}
@@ -429,6 +496,19 @@ type ttRun struct {
 	watchdog time.Duration
 	sub      *ttSub
 	hasDel   bool
+	twinIDs  map[string]string // "<node>/<twin document index>" -> docID (Twin documents are local to their writer)
+	twins    []*ttTwinCommit
+}
+
+// ttTwinCommit: a commit of a document of collection Twin.
+type ttTwinCommit struct {
+	Cid, DocID string
+	Node       int
+	OpIdx      int
+	W          map[string]any
+	SharedOnly bool   // every field written so far on that document exists in Doc as well
+	Snap       string // ordinary Twin(docID) on the writer right after the commit
+	AsDoc      string // ordinary Doc(docID: <Twin docID>) on the writer right after the commit
 }
 
 func (t *ttRun) logf(f string, a ...any) { t.log = append(t.log, fmt.Sprintf(f, a...)) }
@@ -519,11 +599,11 @@ func ttWatchdog() time.Duration {
 func runTimeTravel(ctx context.Context, c core.Case, r *core.Rec) {
 	var p ttParams
 	c.P(&p)
-	t := &ttRun{ctx: ctx, p: p, kind: ttKind(p), r: r, commits: map[string]*ttCommit{}, watchdog: ttWatchdog()}
+	t := &ttRun{ctx: ctx, p: p, kind: ttKind(p), r: r, commits: map[string]*ttCommit{}, watchdog: ttWatchdog(), twinIDs: map[string]string{}}
 	t.hasDel = strings.HasSuffix(t.kind, "-delete")
 	for i := 0; i < p.Nodes; i++ {
 		n := core.NewNode(ctx, core.NodeOpts{})
-		_, err := n.DB.AddSchema(ctx, sim.SDL(p.Config)+"\ntype Other {\n\tx: Int\n}")
+		_, err := n.DB.AddSchema(ctx, sim.SDL(p.Config)+"\ntype Other {\n\tx: Int\n}"+ttTwinSDL)
 		core.Must(err)
 		t.nodes = append(t.nodes, n)
 	}
@@ -572,6 +652,7 @@ func runTimeTravel(ctx context.Context, c core.Case, r *core.Rec) {
 	}
 	t.drainSub()
 	t.readAll()
+	t.readCross()
 
 	// coverage
 	r.Count("histories", 1)
@@ -717,6 +798,8 @@ func (t *ttRun) step(i int, op ttOp) {
 		}
 		t.logf("#%d write to collection Other", i)
 		t.r.Count("writes_to_other_collection", 1)
+	case "twin":
+		t.twinWrite(i, op)
 	case "deliver":
 		src := t.nodes[op.Src]
 		docID := t.docIDs[op.Doc]
@@ -1249,22 +1332,209 @@ func (t *ttRun) readAtShowDeleted(mode, what string, n *core.Node, docID string,
 	}
 }
 
+// ---------------------------------------------------------------------------------------
+// (v) commits of another collection
+
+func qTwin(docID string) string {
+	return fmt.Sprintf(`query { Twin(docID: "%s") { %s } }`, docID, ttTwinFields)
+}
+
+// twinWrite: a committed write to a document of collection Twin on one node, recorded like a Doc
+// commit: its cid, the ordinary Twin query and the ordinary Doc query for that docID right after it.
+// The subscription on Doc must not report anything for it (same bookkeeping as "other").
+func (t *ttRun) twinWrite(i int, op ttOp) {
+	n := t.nodes[op.Node]
+	tc := n.Col(t.ctx, "Twin")
+	key := fmt.Sprintf("%d/%d", op.Node, op.Doc)
+	docID, exists := t.twinIDs[key]
+	w := map[string]any{}
+	for k, v := range op.W {
+		w[k] = v
+	}
+	var err error
+	if !exists {
+		w["name"] = "tw" + key
+		for k, v := range w {
+			if v == nil {
+				delete(w, k) // a create with a null field: nothing to write
+			}
+		}
+		b, _ := json.Marshal(w)
+		doc, derr := client.NewDocFromJSON(b, tc.Definition())
+		core.Must(derr)
+		docID = doc.ID().String()
+		err = tc.Create(t.ctx, doc)
+	} else {
+		id, derr := client.NewDocIDFromString(docID)
+		core.Must(derr)
+		var d *client.Document
+		if d, err = tc.Get(t.ctx, id, false); err == nil {
+			b, _ := json.Marshal(w)
+			core.Must(d.SetWithJSON(b))
+			err = tc.Update(t.ctx, d)
+		}
+	}
+	if err != nil {
+		t.logf("#%d twin write on n%d: %v", i, op.Node, err)
+		t.r.Note("other-collection-write-failed")
+		return
+	}
+	t.twinIDs[key] = docID
+	if t.sub != nil && op.Node == 0 {
+		if t.p.LazySub {
+			t.sub.pending = append(t.sub.pending, nil)
+		} else {
+			t.sub.foreign++
+		}
+	}
+	heads := n.CompositeHeads(t.ctx, docID)
+	if len(heads) != 1 {
+		t.r.Note("unexpected-head-set-after-local-write")
+		return
+	}
+	c := &ttTwinCommit{Cid: heads[0], DocID: docID, Node: op.Node, OpIdx: i, W: w, SharedOnly: true}
+	for _, prev := range t.twins {
+		if prev.DocID == docID && prev.Node == op.Node && !prev.SharedOnly {
+			c.SharedOnly = false
+		}
+	}
+	if _, ok := w["z"]; ok {
+		c.SharedOnly = false
+	}
+	rows, err := n.Rows(t.ctx, qTwin(docID), "Twin")
+	if err != nil || len(rows) != 1 {
+		t.logf("#%d ordinary Twin query: %d rows, err=%v", i, len(rows), err)
+		t.r.Note("ordinary-query-error")
+		return
+	}
+	c.Snap = core.Canon(rows)
+	drows, err := t.rows(n, qPlain(docID))
+	if err != nil {
+		t.r.Note("ordinary-query-error")
+		return
+	}
+	c.AsDoc = core.Canon(drows)
+	t.twins = append(t.twins, c)
+	t.r.Count("writes_to_twin_collection", 1)
+	t.logf("#%d write to Twin document %s on n%d %s -> %s; Twin(docID)=%s Doc(docID)=%s", i, key, op.Node, core.Canon(w), tailCid(c.Cid), c.Snap, c.AsDoc)
+	t.crossAtTwin(c) // right away (later commits of Doc documents follow) and again after the history
+}
+
+// crossRead: one time-travel request that names a commit of a document of ANOTHER collection than the
+// one queried. want = what the ordinary query of the queried collection for that document returned
+// right after the commit (no document); a request error is accepted as well (the request is
+// meaningless); documents are not.
+func (t *ttRun) crossRead(n *core.Node, what, q, col, want string) {
+	if t.readHung {
+		return
+	}
+	var rows []map[string]any
+	var err error
+	if !t.guarded(func() { rows, err = n.Rows(t.ctx, q, col) }) {
+		t.readHung = true
+		t.violate("hang/time-travel-read", fmt.Sprintf("%s: the time-travel query did not return within %s", what, t.watchdog))
+		return
+	}
+	t.r.Count("evaluations", 1)
+	t.r.Count("cross_collection_reads", 1)
+	if err != nil {
+		t.r.Count("cross_collection_reads_rejected", 1)
+		t.logf("read %s -> error %v", what, err)
+		return
+	}
+	got := core.Canon(rows)
+	t.logf("read %s -> %s", what, got)
+	if got != want {
+		t.violate("versioned/cross-collection/commit-of-other-collection-read-as-document",
+			fmt.Sprintf("%s: the time-travel query returns %s; the ordinary query of that collection for the document right after the commit returned %s (the commit is not a state of any document of the queried collection)", what, got, want))
+	}
+}
+
+// crossAtTwin: a Twin commit requested through Doc - bare, with the docID of the Twin document,
+// with the docID of a Doc document - and, as control, through Twin.
+func (t *ttRun) crossAtTwin(c *ttTwinCommit) {
+	n := t.nodes[c.Node]
+	what := fmt.Sprintf("n%d commit %s of Twin document %s (op #%d, shared fields only: %v)", c.Node, tailCid(c.Cid), c.DocID, c.OpIdx, c.SharedOnly)
+	if c.SharedOnly {
+		t.r.Count("cross_collection_reads_commit_with_shared_fields_only", 1)
+	}
+	t.crossRead(n, what+" requested as Doc(cid)", fmt.Sprintf(`query { Doc(cid: "%s") { %s } }`, c.Cid, ttFields), "Doc", c.AsDoc)
+	t.crossRead(n, what+" requested as Doc(cid, docID of the Twin document)", qAt(c.Cid, c.DocID), "Doc", c.AsDoc)
+	t.r.Count("cross_collection_reads_with_docid", 1)
+	if len(t.docIDs) > 0 {
+		// the state of a Doc document at a commit that is not one of its commits: nothing
+		t.crossRead(n, what+" requested as Doc(cid, docID of a Doc document)", qAt(c.Cid, t.docIDs[0]), "Doc", "[]")
+	}
+	if t.readHung {
+		return
+	}
+	// control: through its own collection the commit reads as the ordinary query did right after it
+	var rows []map[string]any
+	var err error
+	q := fmt.Sprintf(`query { Twin(cid: "%s", docID: "%s") { %s } }`, c.Cid, c.DocID, ttTwinFields)
+	if !t.guarded(func() { rows, err = n.Rows(t.ctx, q, "Twin") }) {
+		t.readHung = true
+		t.violate("hang/time-travel-read", fmt.Sprintf("%s: the time-travel query through Twin did not return within %s", what, t.watchdog))
+		return
+	}
+	t.r.Count("evaluations", 1)
+	t.r.Count("versioned_reads_second_collection", 1)
+	if err != nil {
+		t.violate("versioned/second-collection/query-error", fmt.Sprintf("%s requested as Twin(cid, docID): %v", what, err))
+		return
+	}
+	if got := core.Canon(rows); got != c.Snap {
+		t.violate("versioned/second-collection/differs-from-post-commit-query",
+			fmt.Sprintf("%s requested as Twin(cid, docID) returns %s, the ordinary query right after the commit returned %s", what, got, c.Snap))
+	}
+}
+
+// readCross: after the history, every Twin commit once more, and every Doc commit through Twin on
+// every node that lists it (alternating between the bare form and the form with the docID).
+func (t *ttRun) readCross() {
+	if t.readHung || t.aborted {
+		return
+	}
+	for _, c := range t.twins {
+		t.crossAtTwin(c)
+	}
+	for ni, n := range t.nodes {
+		for k, cid := range t.order {
+			ci := t.commits[cid]
+			if _, _, err := n.GetBlock(t.ctx, core.ParseCid(cid)); err != nil {
+				continue // the node never received the commit
+			}
+			what := fmt.Sprintf("n%d d%d commit %s (op #%d)", ni, ci.Doc, tailCid(cid), ci.OpIdx)
+			docID := t.docIDs[ci.Doc]
+			if k%2 == 0 {
+				t.crossRead(n, what+" requested as Twin(cid)", fmt.Sprintf(`query { Twin(cid: "%s") { %s } }`, cid, ttTwinFields), "Twin", "[]")
+			} else {
+				t.crossRead(n, what+" requested as Twin(cid, docID)", fmt.Sprintf(`query { Twin(cid: "%s", docID: "%s") { %s } }`, cid, docID, ttTwinFields), "Twin", "[]")
+			}
+			t.r.Count("cross_collection_reads_doc_commit_through_twin", 1)
+		}
+	}
+}
+
 func init() {
 	core.Register(&core.Check{
 		ID: "C03", Level: "exploration",
-		Rule: "6 anchor histories + generated scripted histories: linear (1 node, 1-3 documents, 2-8 updates each over registers incl. null writes and Int/Float/positive counters, " +
+		Rule: "9 anchor histories + generated scripted histories: linear (1 node, 1-3 documents, 2-8 updates each over registers incl. null writes and Int/Float/positive counters, " +
 			"GraphQL subscription open), branching (2-3 nodes, concurrent writes, exchange by block-closure copy + VerifMerge, multi-parent commits), each optionally with a delete. " +
 			"Every composite commit listed by commits(docID, fieldName:_C) on every node is read with Col(cid,docID), also with matching / non-matching equality filters on s and i (indexed in the indexed configuration), also in the middle of the history. " +
+			"In a third of the histories (and two anchors) documents of a second collection Twin, which shares the field names name/s/i/n with Doc, are written in between: every Twin commit is requested through Doc (bare, with the Twin docID, with a Doc docID) and through Twin, every Doc commit through Twin - a commit of another collection is no state of a document of the queried one. " +
 			"non-trivial = >=3 commits and a counter field written; distinct by (kind, configuration, per-commit (document, parent count, fields written) sequence).",
 		Cases:       ttCases,
 		Run:         runTimeTravel,
-		Floors:      []string{"versioned_reads", "counter_history_len_ge4", "branching_histories", "merge_commit_reads", "subscription_results", "subscription_results_evaluated_after_later_commits", "single_head_reads", "null_write_reads", "float_counter_reads", "delete_commit_reads", "mid_history_reads", "filtered_versioned_reads_on_indexed_field", "nontrivial_histories", "branching_histories_with_lazy_subscription"},
+		Floors:      []string{"versioned_reads", "counter_history_len_ge4", "branching_histories", "merge_commit_reads", "subscription_results", "subscription_results_evaluated_after_later_commits", "single_head_reads", "null_write_reads", "float_counter_reads", "delete_commit_reads", "mid_history_reads", "filtered_versioned_reads_on_indexed_field", "nontrivial_histories", "branching_histories_with_lazy_subscription",
+			"cross_collection_reads", "cross_collection_reads_commit_with_shared_fields_only", "cross_collection_reads_with_docid", "cross_collection_reads_doc_commit_through_twin", "versioned_reads_second_collection"},
 		CaseTimeout: 12 * time.Minute,
 		Assumptions: []string{
 			"after a local write the writer's merged set for the document is exactly ancestors(c) ∪ {c}, so its ordinary query right after the write is the state of commit c",
 			"ancestry is read from the stored blocks; increments and written fields come from the harness's own script keyed by commit cid",
 			"delivery = copy of the ancestor+link closure then executeMerge via hook H1",
 			"empty subscription results carry no values and are skipped (their multiplicity is C20's subject)",
+			"a time-travel request that names a commit of a document of another collection may answer with no document or with a request error; the expected answer is the ordinary query of the queried collection for that docID recorded right after the commit (empty)",
 		},
 	})
 }
